@@ -5,7 +5,8 @@ generated resource tables (gen/arscgen), APKs (stdlib zipfile: manifest + dex + 
 For each artefact, EVERY one of these single faults:
   * byte substitution at every offset with values {00, 01, 7f, 80, fe, ff, b^01, b^80} (thorough: all 255 for files <= 400 bytes),
   * truncation at every length,
-  * every 4-byte-aligned 32-bit word overwritten with {0, 1, 0x7fffffff, 0xffffffff}; every 2-byte-aligned 16-bit word with {0, ffff},
+  * every 4-byte-aligned 32-bit word overwritten with {0, 1, 0x7fffffff, 0xffffffff}; every 2-byte-aligned 16-bit word with {0, ffff};
+    every 4-byte-aligned 64-bit word with {2^64-1, 2^64-8, 2^64-16, 2^63, 2^63-1, 2^32},
   * crafted: DEX string data without terminator at end of file (string section placed last, terminator cut), AXML/ARSC chunk sizes 0 / 8.
 DEX mutants get their Adler-32 REPAIRED so that parsing continues past the header (unrepaired mutants die in the header: C09).
 Oracle: mc/budget.py: the parse returns or raises within B(n) = 3*10^5 + 300*n + 2*n^2 interpreter events (function
@@ -188,6 +189,7 @@ def repair_dex(b):
 
 # ------------------------------------------------------------------------------------------------ faults
 SUBS = [0x00, 0x01, 0x7f, 0x80, 0xfe, 0xff]
+W64 = [0xffffffffffffffff, 0xfffffffffffffff8, 0xfffffffffffffff0, 0x8000000000000000, 0x7fffffffffffffff, 0x0000000100000000]
 
 
 def faults(ctx, base):
@@ -207,6 +209,12 @@ def faults(ctx, base):
     for off in range(0, n - 1, 2):
         for v in (0, 0xffff):
             yield ("w16", off, v)
+    # 64-bit length fields (APK Signing Block pairs, zip64-style sizes): every 4-aligned 8-byte word overwritten with the
+    # values at which a signed/unsigned or wrap-around slip shows
+    if n <= 6000:
+        for off in range(0, n - 7, 4):
+            for v in W64:
+                yield ("w64", off, v)
     yield ("cut-last-byte-keep-size",)
 
 
@@ -220,6 +228,8 @@ def apply(base, f, kind):
         b = bytearray(base); b[f[1]:f[1] + 4] = struct.pack("<I", f[2]); b = bytes(b)
     elif k == "w16":
         b = bytearray(base); b[f[1]:f[1] + 2] = struct.pack("<H", f[2]); b = bytes(b)
+    elif k == "w64":
+        b = bytearray(base); b[f[1]:f[1] + 8] = struct.pack("<Q", f[2]); b = bytes(b)
     elif k == "cut-last-byte-keep-size":
         b = base[:-1]
     else:
@@ -303,7 +313,7 @@ def shards(ctx):
 def space(ctx):
     arts = artefacts(ctx)
     return {"artefacts": {k: len(v) for k, v in sorted(arts.items())}, "substitution_alphabet": "00 01 7f 80 fe ff b^01 b^80" + (" (all 255 for <=400 B)" if ctx.thorough else ""),
-            "word_overwrites": {"32bit": ["0", "1", "7fffffff", "ffffffff"], "16bit": ["0", "ffff"]}, "budget": "3e5 + 300*n + 2*n^2 events",
+            "word_overwrites": {"32bit": ["0", "1", "7fffffff", "ffffffff"], "16bit": ["0", "ffff"], "64bit": ["%x" % v for v in W64]}, "budget": "3e5 + 300*n + 2*n^2 events",
             "runaway_cap_per_shard": RUNAWAY_CAP}
 
 
